@@ -61,7 +61,7 @@ def typed_items(d, src):
 
 
 def nwarn(ws):
-    return sum(1 for w in ws if "did not match the length of data available" in str(w.message))
+    return core.flag_warnings(ws)
 
 
 def model_warns(gg, singles, lo, hi):
@@ -365,7 +365,7 @@ def seg_section(ctx, d, dobj, rng, q):
     recs = []
     for ci, case in enumerate(cases):
         for gi, raw in enumerate(case):
-            recs.append({"tid": len(recs) + 1, "pk": [[r["apid"], r["flag"], r["seq"]] for r in raw], "outs": [[0]], "gaps": 0, "nostarts": 0, "k": K})
+            recs.append({"tid": len(recs) + 1, "pk": [[r["apid"], r["flag"], r["seq"]] for r in raw], "outs": [[0]], "gaps": 0, "nostarts": 0, "other": 0, "k": K})
     path = os.path.join(ctx.work, "c11-seg.ndjson")
     core.write_ndjson(path, recs)
     tcfg = c12.cfg(ctx, "c11-seg.cfg", None, 100000, [1, SEG_APID], [0], ["TraceInv"], init=("TraceInit", "TraceNext"))
